@@ -105,8 +105,11 @@ class ExternalOptimizer(Optimizer):
                     if answer is None:
                         try:
                             answer = self._handle_request(comm, initial_values)
-                        except Exception as exc:  # noqa: BLE001
-                            # Store the exception, we first need to send the 'abort' signal:
+                        except BaseException as exc:  # noqa: BLE001
+                            # Store the exception (also a KeyboardInterrupt or
+                            # SystemExit raised in the evaluator, the process
+                            # must not be left running), we first need to send
+                            # the 'abort' signal:
                             exception = exc
                             answer = "abort"
 
@@ -386,6 +389,8 @@ class _JSONPipeCommunicator:
                     return obj.tolist()
                 if isinstance(obj, Path):
                     return str(obj)
+                if isinstance(obj, np.generic):
+                    return obj.item()
                 return super().default(obj)
 
         if self._write_fd is None:
